@@ -146,11 +146,13 @@ Proof. exact multistage_run. Qed.
 Print Assumptions C05_multistage_forward_total.
 
 """
-mk('C05', ['Inst','GW2','RevCost','BinomDP'], [C05_total,
+mk('C05', ['Inst','GW2','RevCost','BinomDP','RevConv','RevBridge4','RevolveRun','RevolveGW','Opt0Table'], [C05_total,
    lifted('C05_chain','Inst','C05_chain','TC (the forward work of the recursion n_advance defines) = n + E n k, and E n k = the Griewank-Walther closed form; E = the model of optimal_extra_steps'),
    lifted('C05_gw_main','GW2','GW_main','Griewank-Walther: DP value = schedule recursion = closed form, for any E, Eh satisfying the DP / recursion equations'),
    lifted('C05_dp_is_min','BinomDP','E_le','the DP value is minimal among all bisection splits'),
-   lifted('C05_revolve_work_partial','RevCost','revolve_work','PARTIAL (Revolve): forward work of the generated op list = (l+1) + step-count DP, independent of uf, ub; table correctness is a hypothesis; clause "no executable schedule whatsoever does better" is not proved (DESIGN.md 6 C05)')])
+   lifted('C05_revolve_forward_total','RevolveRun','revolve_forward_total_gw','Revolve on the extracted model, every cost vector with uf > 0: once the schedule is exhausted the reference executor has carried out exactly TC N s forward steps -- the same number as Multistage (for either trajectory tj), i.e. N + E N s'),
+   lifted('C05_revolve_dp_is_gw','RevolveGW','P_eq_E','the step-count DP behind get_opt_0_table (min over first splits) is the Griewank-Walther DP value E (l+1) m'),
+   lifted('C05_global_optimality_partial','BinomDP','E_le','PARTIAL: optimality is proved within the family of bisection schedules (E is the minimum of the DP over all first splits, and both classes attain it); that NO executable schedule whatsoever with s restart checkpoints does better (Griewank-Walther 2000, Prop. 1) is not proved')])
 C06_total = """(* Mixed on the extracted model (either planner path): once the schedule reports exhaustion the reference executor has carried
    out exactly C N S forward steps -- the cost of the planner's recurrence (C3 N S = MixDP.C N S, the model of
    mixed_step_memoization(N, S)[2]); the same for RAM and DISK *)
@@ -169,8 +171,11 @@ mk('C06', ['MixInv','MixDP'], [C06_total,
    lifted('C06_plan_1','MixDP','plan_1',''), lifted('C06_plan_ge2','MixDP','plan_ge2','facts of the concrete planner model: the step kind and length it prescribes'),
    lifted('C06_plan_2','MixDP','plan_2',''), lifted('C06_C_ics','MixDP','C_ics','cost recurrence, restart checkpoint'), lifted('C06_C_adj','MixDP','C_adj','cost recurrence, adjoint-dependency checkpoint'),
    lifted('C06_planC_unfold_partial','MixDP','planC_unfold','PARTIAL: the planner value is the minimum over the candidates of its own recurrence (one-level unfolding); that no executable schedule whatsoever does better (Maddison 2024, Thm 1) is not proved')])
-mk('C07', ['RevCost'], [
-   lifted('C07_revolve_work_partial','RevCost','revolve_work','PARTIAL: Revolve only; table correctness as hypothesis; DiskRevolve/Periodic/HRevolve cost theorems not proved (oracle + correspondence only)'),
+mk('C07', ['RevCost','RevConv','RevBridge4','RevolveRun','Opt0Table'], [
+   lifted('C07_revolve_forward_total','RevolveRun','revolve_forward_total','Revolve on the extracted model, every cost vector with uf > 0: forward steps at exhaustion = N + P s (N-1), P = the step-count DP (Opt0Table.P: minimum over all first splits); reversed steps = N by the run theorem; no DISK traffic (budget 0)'),
+   lifted('C07_revolve_table_optimum','RevolveRun','revolve_table_optimum','... and the entry of the extracted get_opt_0_table for the whole problem is N ub + uf P s (N-1): stream cost uf*fwd + ub*N = table optimum + N uf, the memory-only optimum'),
+   lifted('C07_opt0_values','Opt0Table','opt0_values','every entry of the table the generators read is (l+1) ub + uf P m l'),
+   lifted('C07_other_classes_partial','RevCost','revolve_work','PARTIAL: the cost theorems for DiskRevolve, PeriodicDiskRevolve and HRevolve (get_opt_inf_table, get_hopt_table) and the three orderings between the classes are not proved: correspondence + clean-DP oracle only; (this lemma is the structural work formula the Revolve theorem rests on)'),
    lifted('C07_argmin_min','RevCost','argmin_min','the split chosen is a minimiser'), lifted('C07_argmin_affine','RevCost','argmin_affine','the split does not depend on uf, ub')])
 C09_runs = """(* unlimited adjoint calculations, each executable: the run theorems hold for every number k of further requests *)
 Theorem C09_single_memory_passes : forall (N : Z), 1 <= N -> N <= maxsize -> forall k : nat,
